@@ -23,4 +23,7 @@ def run(ck):
     nf = {k: v[2] for k, v in funcs.GROWTH.items()}
     funcs.alignment_exponents_nonneg(ck, "C07.R5", res, ("add", "sub", "mul"), nf)
     flags.sticky_and_ownership(ck, "C07.R6")
+    from . import sizes
+    sizes.init_size_relation(ck, "C06.R1")             # results are built from (signed, n_int, n_frac): the word follows from them
+    sizes.no_size_rejection(ck, "C07.R7")
     ops.operator_siblings(ck, "C08.R4", only=("__add__", "__sub__", "__rsub__", "__mul__"))
